@@ -510,7 +510,12 @@ class Gen(object):
             inner.append(at(acc, 1))
         ncrit = rng.choice([1, 2])
         mid = at(T / 2, 0) if ncrit == 2 else None
-        allpts = pts + inner + ([mid] if mid else [])
+        # optionally a stretchy twin of EQUAL size in parallel with the fixed component: either between the
+        # same two nodes or one step further out (joined by perpendicular wires), listed before or after it
+        twin = rng.choice(['none', 'offset', 'offset', 'same'])
+        tj0 = sum(lens[:j], Fraction(0))
+        twin_pts = [at(tj0, 2), at(tj0 + lens[j], 2)] if twin == 'offset' else []
+        allpts = pts + inner + ([mid] if mid else []) + twin_pts
         if len(set(allpts)) != len(allpts) or any(q in occupied for q in allpts):
             return False
         B = self.new_node(pts[0])
@@ -528,9 +533,25 @@ class Gen(object):
         segs = list(range(k))
         if rng.random() < 0.5:
             segs.reverse()
+        twin_first = rng.random() < 0.4
         for i in segs:
             a, b, L = chain_nodes[i], chain_nodes[i + 1], lens[i]
-            if i == j:
+
+            def add_twin():
+                if twin == 'same':
+                    self.add_two(a, b, d, L, fixed=False, size=L)
+                elif twin == 'offset':
+                    a2, b2 = self.new_node(twin_pts[0]), self.new_node(twin_pts[1])
+                    self.add_two(a, a2, pdir, Fraction(1), fixed=False, size=Fraction(1))
+                    self.add_two(a2, b2, d, L, fixed=False, size=L)
+                    self.add_two(b, b2, pdir, Fraction(1), fixed=False, size=Fraction(1))
+            if i == j and twin != 'none':
+                if twin_first:
+                    add_twin()
+                self.add_two(a, b, d, L, fixed=True)
+                if not twin_first:
+                    add_twin()
+            elif i == j:
                 if rng.random() < 0.3:
                     idx = 100 + len(self.spec)
                     name = 'TR%d' % idx
@@ -1082,9 +1103,10 @@ CASES_HEADER = '''(* GENERATED by checks/c20.py: the verified checker and the ha
    tags: 0/1 real positions violate x/y constraint #index; 2/3 the generator's witness violates x/y
    constraint #index (hint set not consistent: generator bug); 4 node #index does not have exactly one
    \\coordinate; 5/6 model x/y edges differ from the real graph; 7/8 model common-node classes differ;
-   9/10 model longest-path distance differs for gnode #index *)
+   9/10 model longest-path distance differs for gnode #index; 11/12 x/y group #index of parallel edges:
+   what prune() left in the forward or in the reverse edge list is not LayoutPrune.best of the group *)
 From Coq Require Import QArith List Bool Arith.
-Require Import LT.Layout LT.LayoutPath LT.LayoutPlace.
+Require Import LT.Layout LT.LayoutPath LT.LayoutPlace LT.LayoutPrune.
 Import ListNotations.
 Local Open Scope Q_scope.
 Definition tag (c t : nat) (l : list nat) : list (nat * nat * nat) := map (fun i => (c, t, i)) l.
@@ -1143,6 +1165,17 @@ def coq_case(k, case, res, ev, geoms, with_model):
                 L.append('Definition lab_%s_%d := cnodes nodes_%d (%slinks_of ks_%d).' % (ax, k, k, ax, k))
                 parts.append('tag %d %d (flag (same_edges (map (gedge_lab lab_%s_%d) (%sedges_of ks_%d)) re_%s_%d))' % (k, t0, ax, k, ax, k, ax, k))
                 parts.append('tag %d %d (flag (lab_eqb lab_%s_%d rl_%s_%d))' % (k, t0 + 2, ax, k, ax, k))
+                grp = res['graphs'][ax].get('groups')
+                if grp is not None:
+                    def pe(x):
+                        return '(%s, %s)' % (qlit(Fraction(x[0])), 'true' if x[1] else 'false')
+
+                    def one(lst):
+                        # prune must leave exactly one edge per pair in each view
+                        return 'Some %s' % pe(lst[0]) if len(lst) == 1 else 'None'
+                    items = ['([%s], %s, %s)' % ('; '.join(pe(x) for x in ge), one(gf), one(gv)) for _, _, ge, gf, gv in grp]
+                    L.append('Definition pg_%s_%d : list (list pedge * option pedge * option pedge) := [%s].' % (ax, k, '; '.join(items)))
+                    parts.append('tag %d %d (prune_bad pg_%s_%d)' % (k, t0 + 6, ax, k))
                 if ngn:
                     L.append('Definition pe_%s_%d : list (edge Q) := with_start_end %s %s %d%%nat %d%%nat.' % (ax, k, gn, pruned, ns, ns + 1))
                     L.append('Definition rd_%s_%d : list (nat * option Q) := %s.' % (ax, k, dist))
@@ -1219,6 +1252,18 @@ def _chain_probe(d, pdir):
     return ('probe_chain_%s' % d, lines, wit)
 
 
+def _parallel_probe(d, pdir, fixed_first):
+    # critical side 1 -> 8 -> 6 (3 + 3); below it the column pair (2,4 | 3,5) carries a fixed and an equal-size
+    # stretchy component in parallel; 3 -> 7 closes the loop with slack
+    fx, st = 'R2 2 3; %s=2, fixed' % d, 'R1 4 5; %s=2' % d
+    mid = [fx, 'W 2 4; %s' % pdir, st] if fixed_first else [st, 'W 2 4; %s' % pdir, fx]
+    lines = ['W 1 8; %s=3' % d, 'W 8 6; %s=3' % d, 'W 1 2; %s' % pdir] + mid + ['W 3 5; %s' % pdir, 'R3 3 7; %s' % d, 'W 6 7; %s' % pdir]
+    t = {'1': (0, 0), '8': (3, 0), '6': (6, 0), '2': (0, 1), '3': (2, 1), '4': (0, 2), '5': (2, 2), '7': (6, 1)}
+    wit = {n: (DVEC[d][0] * a + DVEC[pdir][0] * b, DVEC[d][1] * a + DVEC[pdir][1] * b) for n, (a, b) in t.items()}
+    return ('probe_parallel_%s_%s' % (d, 'ff' if fixed_first else 'sf'), lines, wit)
+
+
+PROBES += [_parallel_probe(d_, p_, ff_) for d_, p_ in (('right', 'down'), ('left', 'up'), ('up', 'right'), ('down', 'left')) for ff_ in (True, False)]
 PROBES += [_chain_probe('down', 'right'), _chain_probe('left', 'down'), _chain_probe('right', 'up'), _chain_probe('up', 'left')]
 
 
@@ -1329,7 +1374,7 @@ def theory_ready():
         return True
     except RuntimeError:
         # another property's theory file may be mid-edit; ours must be compiled and fresh
-        for f in ('Layout', 'LayoutPath', 'LayoutPlace', 'LayoutMulti'):
+        for f in ('Layout', 'LayoutPath', 'LayoutPlace', 'LayoutMulti', 'LayoutPrune'):
             v = os.path.join(core.COQ_THEORY, f + '.v')
             vo = v + 'o'
             if not os.path.exists(vo) or os.path.getmtime(vo) < os.path.getmtime(v):
@@ -1395,14 +1440,14 @@ def run(tier='quick', replay=None):
         for f, t in texts.items():
             w.write(f, t)
         bad = core.gate_text('generated', '\n'.join(texts.values()))
-        bad += core.gate_files([os.path.join(core.COQ_THEORY, f) for f in ('Layout.v', 'LayoutPath.v', 'LayoutPlace.v', 'LayoutMulti.v')])
+        bad += core.gate_files([os.path.join(core.COQ_THEORY, f) for f in ('Layout.v', 'LayoutPath.v', 'LayoutPlace.v', 'LayoutMulti.v', 'LayoutPrune.v')])
         if bad:
             res.failed_obl.append(('gate', 'generated', '; '.join(bad)))
             res.obligations += 1
         cr = core.coqc_many(w.dir, list(texts), timeout=600)
         res.coq_results(w.dir, cr, texts)
         # theory theorems are obligations of this property too (compiled by setup; count them)
-        for f in ('Layout.v', 'LayoutPath.v', 'LayoutPlace.v', 'LayoutMulti.v'):
+        for f in ('Layout.v', 'LayoutPath.v', 'LayoutPlace.v', 'LayoutMulti.v', 'LayoutPrune.v'):
             n = len(core.obligations_in(open(os.path.join(core.COQ_THEORY, f)).read()))
             res.obligations += n
             if os.path.exists(os.path.join(core.COQ_THEORY, f + 'o')):
@@ -1518,9 +1563,10 @@ def run(tier='quick', replay=None):
                 res.count('violating_placement_' + c['method'])
             elif ev['tikz']:
                 tikz_bad.append((k, ev['tikz']))
-            for t in (5, 6, 7, 8, 9, 10):
+            for t in (5, 6, 7, 8, 9, 10, 11, 12):
                 if cq.get(t):
-                    what = {5: 'x edges', 6: 'y edges', 7: 'x common nodes', 8: 'y common nodes', 9: 'x longest-path distances', 10: 'y longest-path distances'}[t]
+                    what = {5: 'x edges', 6: 'y edges', 7: 'x common nodes', 8: 'y common nodes', 9: 'x longest-path distances', 10: 'y longest-path distances',
+                            11: 'x pruned parallel edges (forward/reverse views)', 12: 'y pruned parallel edges (forward/reverse views)'}[t]
                     res.disagreements.append({'case': public_case(c), 'differs': what})
         if tikz_bad:
             tikz_bad.sort(key=lambda t: len(cases[t[0]].get('lines', [])))
